@@ -111,6 +111,15 @@ def run(tier, seed):
         big += f"    v{i} : {T.spell()} = {T.lit(T.val(i + 1))}; {T.show(f'v{i}', tyir.Fresh(f'q{i}x'))}\n"
     big += "    0\n}\n"
     configs.append(("generated/129-types", {"main.capy": big}))
+    # comptime blocks that yield a `type`, choosing between types whose type ids coincide (u64/usize, i64/isize): the result is
+    # looked up in a reverse map, and the rest of the program tells the two types apart
+    for a, b in (("u64", "usize"), ("usize", "u64"), ("i64", "isize"), ("isize", "i64")):
+        for pick_first in (True, False):
+            src = (f"printf :: (f: str, n: i64) extern;\nbits :: () -> u32 {{ 64 }}\n"
+                   f"Len :: comptime {{ if bits() == {64 if pick_first else 32} {{ {a} }} else {{ {b} }} }};\n"
+                   f"bump :: (p: ^mut {b}) {{ p^ = p^ + 1; }}\n"
+                   f"main :: () -> i32 {{\n    n : Len = 41;\n    bump(^mut n);\n    printf(\"%ld\\n\", i64.(n));\n    0\n}}\n")
+            configs.append((f"comptime-type-choice/{a}-or-{b}/{'first' if pick_first else 'second'}", {"main.capy": src}))
     others = [multifile.render(b, tuple(n for n, _ in b.globs), dict.fromkeys([n for n, _ in b.globs], 0)) for b in multifile.BASES[:3]]
     hist_len = 1 if quick else 2
     histories = [()]
@@ -129,6 +138,10 @@ def run(tier, seed):
         results.append(("fresh-3-other-path", compile_once(os.path.join(d + "c", "deeper", "dir"), files, mod)))
         results.append(("no-aslr", compile_once(d + "d", files, mod, wrapper=("setarch", "x86_64", "-R"))))
         results.append(("other-env", compile_once(d + "e", files, mod, env_extra={"HOME": "/nonexistent", "TMPDIR": "/tmp", "FOO": "bar" * 50, "LANG": "C"})))
+        if key.startswith("comptime-type-choice/"):
+            # an address-dependent choice between two candidates shows up with probability 1/2 per fresh process
+            for extra in range(12):
+                results.append((f"fresh-extra-{extra}", compile_once(d + "a", files, mod)))
         for h in histories[1:]:
             hd = d + "h" + "".join(map(str, h))
             shutil.rmtree(hd, ignore_errors=True)
